@@ -8,12 +8,38 @@ import (
 	"github.com/nsqio/nsq/internal/verifrt"
 )
 
-// verifDrive: hand the router a sequence of n events chosen from the alphabet
-// {message, sync tick, SIGHUP, SIGTERM iteration, consumer stopped}; after every event (router
-// parked again) the state oracle runs; the FIN oracle runs inside every OnFinish.
-func (r *verifRun) drive(n int, bodyLen int, alphabet []int) {
+// plan draws the event sequence (before the router starts: natively the sync ticker is a real
+// one, and it is only given a short period when the sequence contains ticks).
+func (r *verifRun) plan(n int, alphabet []int) []int {
+	var evs []int
+	ticks, termSeen := false, false
 	for i := 0; i < n; i++ {
 		ev := alphabet[verifrt.Choice("event", len(alphabet))]
+		// sequences that cannot happen or add nothing are cut here, before anything runs
+		verifrt.Assume(!(ev == verifEvTick && termSeen))          // the first SIGTERM iteration stops the ticker
+		verifrt.Assume(!(ev == verifEvTerm && r.cfg.starved))     // (native consumer with a fake starved connection cannot Stop())
+		verifrt.Assume(!(ev == verifEvIntrude && !r.cfg.workDir)) // no hand-off, nothing to collide with
+		termSeen = termSeen || ev == verifEvTerm
+		evs = append(evs, ev)
+		ticks = ticks || ev == verifEvTick
+		if ev == verifEvStop {
+			break
+		}
+	}
+	if !verifrt.Symbolic() && ticks {
+		r.opts.SyncInterval = r.tickStep
+	}
+	return evs
+}
+
+// drive: hand the router a sequence of n events chosen from the alphabet
+// {message, sync tick, SIGHUP, SIGTERM iteration, consumer stopped}; after every event (router
+// parked again) the state oracle runs; the FIN oracle runs inside every OnFinish.
+func (r *verifRun) drive(plan []int, bodyLen int) {
+	for i, ev := range plan {
+		if i == r.breakBefore {
+			r.broke = r.breakOpenFile(r.breakVoid)
+		}
 		if ev == verifEvTick && r.tickStopped {
 			verifrt.Assume(false) // the ticker is stopped by the first SIGTERM iteration
 		}
@@ -48,9 +74,9 @@ func verifC19FinAfterSync() {
 	}
 	r := verifNewRun(cfg)
 	defer r.cleanup()
+	evs := r.plan(verifrt.Bound("events", 3, 4), []int{verifEvMsg, verifEvTick, verifEvHup, verifEvTerm, verifEvStop, verifEvIntrude})
 	r.start(r.newLogger("t"))
-	n := verifrt.Bound("events", 3, 4)
-	r.drive(n, 1, []int{verifEvMsg, verifEvTick, verifEvHup, verifEvTerm, verifEvStop, verifEvIntrude})
+	r.drive(evs, 1)
 	verifrt.Observe("finished", r.nFin)
 	verifrt.Reach("a-message-was-finished", r.nFin > 0)
 	verifrt.Reach("two-finished-in-one-sync", r.nFin >= 2 && r.syncs == 1 && !cfg.gzip)
@@ -61,8 +87,8 @@ func verifC19FinAfterSync() {
 	verifrt.Reach("hand-off-name-taken-meanwhile", r.intrusions > 0 && r.links > 0 && r.nFin > 0)
 }
 
-// VerifC19_Rotation: the router with rotation by size (every record exceeds the limit),
-// by interval (always elapsed), by <DATETIME> rollover (the clock may cross the hour at any
+// VerifC19_Rotation: the router with rotation by size (the limit is crossed by the second record),
+// by interval (elapsed or not at every check, as the model clock decides), by <DATETIME> rollover (the clock may cross the hour at any
 // reading), with and without --skip-empty-files, gzip, work dir, a directory component in the
 // file name, and optionally a file already sitting where the NEXT revision would go:
 // messages finished before a rotation stay durable in a readable file, nothing existing is
@@ -74,12 +100,12 @@ func verifC19Rotation() {
 		gzip:        verifrt.Choice("gzip", 2) == 1,
 		workDir:     verifrt.Choice("workdir", 2) == 1,
 		skipEmpty:   verifrt.Choice("skipEmpty", 2) == 1,
-		maxInFlight: 1,
+		maxInFlight: 3, // messages stay written-but-unfinished across a rotation
 	}
 	mode := verifrt.Choice("rotateBy", 3)
 	switch mode {
 	case 0:
-		cfg.rotateSize = 1
+		cfg.rotateSize = 4 // a record is 3 bytes: the file is over the limit after two
 	case 1:
 		cfg.rotateEvery = true
 	case 2:
@@ -90,7 +116,9 @@ func verifC19Rotation() {
 	defer r.cleanup()
 	f := r.newLogger("t")
 	// a file in the way of the second revision / the second hour
-	switch verifrt.Choice("inTheWay", 4) {
+	way := verifrt.Choice("inTheWay", 4)
+	verifrt.Assume((mode == 2) == (way == 0 || way == 3) || way == 0) // revision collisions for size/interval, next-hour collision for date
+	switch way {
 	case 1:
 		r.preExisting(r.fileName(f, r.work, "00", 1), []byte("P1;"))
 	case 2:
@@ -98,15 +126,16 @@ func verifC19Rotation() {
 	case 3:
 		r.preExisting(r.fileName(f, r.out, "01", 0), []byte("P3;"))
 	}
+	evs := r.plan(verifrt.Bound("events", 3, 4), []int{verifEvMsg, verifEvTick, verifEvHup})
 	r.start(f)
-	n := verifrt.Bound("events", 3, 4)
-	r.drive(n, 1, []int{verifEvMsg, verifEvTick, verifEvHup})
+	r.drive(evs, 1)
 	files := r.snapshot()
 	verifrt.Observe("finished", r.nFin)
 	verifrt.Reach("finished-messages-in-two-files", r.nFin >= 2 && len(files) >= 2+len(r.pre))
 	verifrt.Reach("rotated-by-date", mode == 2 && len(files) >= 2 && r.nFin >= 2)
 	verifrt.Reach("rotated-with-a-file-in-the-way", len(r.pre) > 0 && r.nFin >= 2 && len(files) >= 3)
 	verifrt.Reach("tick-with-skip-empty", cfg.skipEmpty && r.nFin >= 1 && len(files) >= 1)
+	verifrt.Reach("unfinished-message-carried-over-a-rotation", r.carried > 0)
 }
 
 // VerifC19_Faults: one of the fallible disk operations (open, write - possibly partial -,
@@ -134,9 +163,9 @@ func verifC19Faults() {
 	if verifrt.Symbolic() {
 		r.disk.faultAt = faultAt
 	}
+	evs := r.plan(verifrt.Bound("events", 3, 4), []int{verifEvMsg, verifEvHup, verifEvStop})
 	r.start(f)
-	n := verifrt.Bound("events", 3, 4)
-	r.drive(n, 1, []int{verifEvMsg, verifEvHup, verifEvStop})
+	r.drive(evs, 1)
 	verifrt.Reach("no-fault-run-finishes-messages", r.nFin > 0 && !(verifrt.Symbolic() && r.disk.faulted))
 	if verifrt.Symbolic() {
 		verifrt.Reach("zz-fault-position-beyond-the-run", faultAt >= 0 && !r.disk.faulted)
@@ -145,5 +174,41 @@ func verifC19Faults() {
 		// fault-free run of the same events (it must still satisfy every oracle)
 		verifrt.Reach("zz-fault-position-beyond-the-run", faultAt >= 0)
 		verifrt.Reach("zz-fault-ends-in-exit", faultAt >= 0)
+	}
+}
+
+// VerifC19_BrokenFile: before any one event of the sequence the logger's open file stops
+// working: either every write and fsync fails, or writes are swallowed and only fsync reports
+// the failure. Unlike VerifC19_Faults this is a fault a
+// real kernel can be made to produce, so a counterexample replays natively. Whatever the logger
+// does about the errors (it exits), no message may be finished that is not durable, and what
+// was finished before stays.
+func VerifC19_BrokenFile() { verifrt.Atomic(verifC19BrokenFile) }
+
+func verifC19BrokenFile() {
+	cfg := verifCfg{
+		gzip:        verifrt.Choice("gzip", 2) == 1,
+		workDir:     verifrt.Choice("workdir", 2) == 1,
+		maxInFlight: 1 + verifrt.Choice("maxInFlight", 2),
+		faults:      1,
+	}
+	r := verifNewRun(cfg)
+	defer r.cleanup()
+	n := verifrt.Bound("events", 3, 4)
+	evs := r.plan(n, []int{verifEvMsg, verifEvHup, verifEvStop})
+	r.breakBefore = verifrt.Choice("breakBefore", n+1)
+	r.breakVoid = verifrt.Choice("breakKind", 2) == 1
+	if r.breakBefore == n {
+		r.breakBefore = -1
+	}
+	r.start(r.newLogger("t"))
+	r.drive(evs, 1)
+	// (reached only if the logger did not exit)
+	verifrt.Reach("a-healthy-file-two-finished", r.breakBefore < 0 && r.nFin >= 2)
+	verifrt.Reach("b-healthy-file-gzip", r.breakBefore < 0 && r.nFin >= 1 && cfg.gzip)
+	verifrt.Reach("c-healthy-file-work-dir", r.breakBefore < 0 && r.nFin >= 1 && cfg.workDir && r.links > 0)
+	verifrt.Reach("d-nothing-open-to-break", r.breakBefore >= 0 && !r.broke)
+	if !verifrt.Symbolic() {
+		verifrt.Reach("zz-fault-ends-in-exit", true)
 	}
 }
